@@ -25,9 +25,25 @@ type c07Case struct {
 	// SynthN > 0: X is a synthetic document of SynthN distinct words (added to the corpus) from which SynthDrop words
 	// are missing at the head (or tail): partial copies right at the threshold boundary, where rounding slips in the
 	// candidate search show.
+	// PStyle 1: the lines of the prefix / suffix blocks start with list markers (1. 2) 2.0. 10.2) iv. a.), which the
+	// tokenizer drops at a line start: still unrelated text without any word of its own.
+	PStyle    int  `json:"ps,omitempty"`
 	SynthN    int  `json:"sn,omitempty"`
 	SynthDrop int  `json:"sd,omitempty"`
 	SynthTail bool `json:"st,omitempty"`
+}
+
+var c07Markers = []string{"1.", "2)", "2.0.", "10.2)", "iv.", "a.", "3.", "2.1.", "12)", "b."}
+
+func c07Numbered(block []byte) []byte {
+	if len(block) == 0 {
+		return block
+	}
+	ls := strings.Split(strings.TrimSuffix(string(block), "\n"), "\n")
+	for i := range ls {
+		ls[i] = c07Markers[i%len(c07Markers)] + " " + ls[i]
+	}
+	return []byte(strings.Join(ls, "\n") + "\n")
 }
 
 func c07SynthWords(n int) []string {
@@ -92,6 +108,9 @@ func c07Gen(t *rapid.T) interface{} {
 	}
 	c.PWords, c.PLines = blk("prefix")
 	c.SWords, c.SLines = blk("suffix")
+	if lib.IntN(t, 0, 3, "numberedBlocks") == 0 {
+		c.PStyle = 1
+	}
 	if c.PWords == 0 && c.SWords == 0 {
 		c.PWords, c.PLines = 7, 2
 	}
@@ -121,6 +140,9 @@ func c07Check(ci interface{}) lib.Outcome {
 	}
 	p := []byte(oovBlock(cl, 300000, c.PWords, c.PLines))
 	s := []byte(oovBlock(cl, 400000, c.SWords, c.SLines))
+	if c.PStyle == 1 {
+		p, s = c07Numbered(p), c07Numbered(s)
+	}
 	if len(x) > 0 && x[len(x)-1] != '\n' {
 		x = append(x, '\n')
 	}
@@ -182,6 +204,9 @@ func c07Check(ci interface{}) lib.Outcome {
 	if c.PWords > len(tx) {
 		classes = append(classes, "prefix-longer-than-x")
 	}
+	if c.PStyle == 1 {
+		classes = append(classes, "numbered-list-blocks")
+	}
 	o := lib.Outcome{Classes: classes, Nontrivial: len(lic) > 0 && c.PWords > 0}
 	if o.Nontrivial {
 		o.FP = fmt.Sprintf("%v|%s|%d|%d|%d|%d|%d|%v", c.Thr, c.X.describe(), c.PWords, c.PLines, c.SWords, c.SynthN, c.SynthDrop, c.SynthTail)
@@ -192,6 +217,6 @@ func c07Check(ci interface{}) lib.Outcome {
 
 func TestVerif_C07(t *testing.T) {
 	lib.Run(t, lib.Spec{ID: "C07", Part: "embedding",
-		Rule: "X = pristine / edited / head- or tail-truncated corpus documents and scenario files, alone, in context or concatenated (>= q words), or a synthetic document of 20-240 distinct words (added to the corpus) with exactly the tolerated number of words (+-1) missing at its head / tail; P, S = blocks of 0-3000 verified OOV words on 1-200 lines; premise ids(P+X+S) = 0^|P| ids(X) 0^|S| (and lines) checked white-box; oracle: canonical Match(P+X+S) == Match(X) shifted; non-trivial = Match(X) has a license match and |P| > 0; distinct = distinct (threshold, X recipe, |P|, lines(P), |S|)",
+		Rule: "X = pristine / edited / head- or tail-truncated corpus documents and scenario files, alone, in context or concatenated (>= q words), or a synthetic document of 20-240 distinct words (added to the corpus) with exactly the tolerated number of words (+-1) missing at its head / tail; P, S = blocks of 0-3000 verified OOV words on 1-200 lines (a quarter of them laid out as numbered lists whose markers the tokenizer drops); premise ids(P+X+S) = 0^|P| ids(X) 0^|S| (and lines) checked white-box; oracle: canonical Match(P+X+S) == Match(X) shifted; non-trivial = Match(X) has a license match and |P| > 0; distinct = distinct (threshold, X recipe, |P|, lines(P), |S|)",
 		New:  func() interface{} { return &c07Case{} }, Gen: c07Gen, Check: c07Check})
 }
